@@ -308,7 +308,7 @@ def finding_key(prop, spec, kind, U=None):
     return key
 
 
-def gen_case(ctx, spec, rng, sizes=(4, 11), endgame=False):
+def gen_case(ctx, spec, rng, sizes=(4, 11), endgame=False, colddup=False):
     nrs = np.random.RandomState(rng.randrange(2**31 - 1))
     n = rng.randint(*sizes)
     flavour = rng.choice(FLAVOURS)
@@ -319,6 +319,11 @@ def gen_case(ctx, spec, rng, sizes=(4, 11), endgame=False):
         # every remaining candidate -- the regime in which per-cluster / per-leaf quotas have to be redistributed (seed R6C01)
         flavour = "random"
         n_lab = rng.randint(2, max(2, n - 3))
+    if colddup:
+        # the first cycles of a run on a pool with repeated measurements: no (or hardly any) label, every point present
+        # several times, a batch of a few samples -- normalisations hit their extremes at *several* candidates (seed R10G02)
+        flavour = "duplicates"
+        n_lab = rng.choice([0, 0, 1, 2])
     data = make_data(nrs, n, spec.kind, flavour, n_labeled=n_lab, classes=spec.classes or (0, 1, 2))
     modes = ["none", "idx"] + (["rows"] if spec.rows else [])
     mode = rng.choice(modes)
@@ -335,6 +340,8 @@ def gen_case(ctx, spec, rng, sizes=(4, 11), endgame=False):
         b = rng.choice([2, 3, len(cs), max(2, len(cs) - 1), len(cs) + 1])
     if endgame:
         b = rng.choice([max(1, len(cs) - 2), max(1, len(cs) - 1), len(cs), len(cs) + 1])
+    if colddup:
+        b = rng.choice([2, 3, 4])
     seed = rng.randrange(10**6)
     return dict(spec=spec.name, n=n, flavour=flavour, mode=mode, b=int(b), seed=seed, X=data["X"], y=data["y"],
                 candidates=cand), data, cand, cs, ncols
@@ -566,7 +573,7 @@ def finish_lines(ctx, lines, checks):
             ctx.disagree(f"{what}: SkaModel.Core.Pool vs implementation", dict(case, line=line[:2000]), out[:2000], impl[:2000])
 
 
-def explore(ctx, prop, per_spec, sizes=(4, 11), only=None, endgame=False, skeleton=None):
+def explore(ctx, prop, per_spec, sizes=(4, 11), only=None, endgame=False, skeleton=None, colddup=False):
     rng = ctx.rng
     lines, checks = [], []
     for spec in pool_specs():
@@ -577,9 +584,11 @@ def explore(ctx, prop, per_spec, sizes=(4, 11), only=None, endgame=False, skelet
         done = tries = 0
         while done < per_spec and tries < per_spec * 3:
             tries += 1
-            g = gen_case(ctx, spec, rng, sizes, endgame=endgame)
+            g = gen_case(ctx, spec, rng, sizes, endgame=endgame, colddup=colddup)
             if endgame:
                 ctx.count("endgame_regime_cases")
+            if colddup:
+                ctx.count("cold_duplicates_regime_cases")
             if g is None:
                 continue
             case, data, cand, cs, ncols = g
